@@ -319,6 +319,20 @@ def numeric_kernel_oracles(rng, res, nmax=200, quick=True):
         if v > np.min(y) + 1e-10 * max(1.0, float(np.max(np.abs(y)))):
             res['violations'].append(dict(key='fmin:samples', what='fourier_minimum (%.12g) exceeds the smallest sample (%.12g) on rough data, N=%d' % (v, np.min(y), n),
                                           data=[float(x) for x in y]))
+    # nearly constant data (a few ulp of noise) of either sign: the constant shortcut must fire, nothing may be raised
+    for t in range(40 if quick else 300):
+        n = int(2 * rng.integers(4, 30) + 1)
+        base = float(10 ** rnd(rng, -3, 3)) * (1 if t % 2 else -1)
+        y = base * (1.0 + np.finfo(float).eps * rng.integers(-2, 3, n))
+        if t % 3 == 2:
+            y = np.full(n, base); y[int(rng.integers(0, n))] += 4 * np.spacing(abs(base))        # constant except one sample a few ulp away
+        checked += 1
+        try:
+            v = fourier_minimum(y)
+            if v > np.min(y) + 1e-9 * abs(base):
+                res['violations'].append(dict(key='fmin:samples', what='fourier_minimum (%.17g) exceeds the smallest sample (%.17g) on nearly constant data' % (v, np.min(y)), data=[float(x) for x in y]))
+        except Exception as e:
+            res['violations'].append(dict(key='fmin:raise', what='fourier_minimum raised %s on nearly constant data of mean %.3g, N=%d' % (type(e).__name__, base, n), data=[float(x) for x in y]))
     res['fmin_rough_cases'] = dict(tried=nrough, returned=returned)
     res['predictions_checked'] += checked
 
